@@ -9,6 +9,8 @@ CONSTANTS
   AllowKF = FALSE
   Taint = TRUE
   Flips = TRUE
+  Cuts = {2, 3}
+  CutTail = 1
   MaxOps = 4
   Emit = TRUE
 INVARIANTS PrintHist
